@@ -280,7 +280,7 @@ def _plan_seam(tier):
     jobs = []
     names = list(c01._QUICK_SPECS)
     if tier == "quick":
-        slow = {"unions_str": 1, "compound": 1}
+        slow = {"unions_str": 1, "compound": 1, "nillable": 1, "sequential": 1, "family": 1, "unionmodels": 1}
         nss = [0, 3, 5, 8, 1, 9, 2, 7]
         for n, name in enumerate(names):
             jobs.append(Job("agree", {"spec": name, "ns": nss[n % 8], "ida": n % 2, "slen": slow.get(name, 2), "imax": 100, "walk": int(name in _WALK)}, 240, 30))
